@@ -609,3 +609,133 @@ def mutcb(tier, seed):
     cov = {"evaluations": n, "distinct_nontrivial": n, "traces_validated_against_impl": n if not viol else 0,
            "mutating_callback_scenarios": n}
     return viol, cov
+
+
+OOM_SRC = r"""
+// C18, "never frees or loses the old block before diverging": with an allocation-error hook that PANICS instead of
+// aborting (unstable `alloc_error_hook`, compiled with RUSTC_BOOTSTRAP=1), every block a vector owned when a request was
+// refused must still have an owner while the stack unwinds — so that, once every handle is dropped, the allocator has
+// got every block back exactly once and nothing was freed twice.
+#![feature(alloc_error_hook)]
+use minivec::{MiniVec, mini_vec};
+use std::alloc::{GlobalAlloc, Layout, System};
+use std::sync::atomic::{AtomicBool, AtomicI64, AtomicU64, Ordering::SeqCst};
+static ON: AtomicBool = AtomicBool::new(false);     // requests are counted (and may be refused)
+static TRACK: AtomicBool = AtomicBool::new(false);  // blocks obtained are entered into the table
+static COUNT: AtomicU64 = AtomicU64::new(0);
+static FAIL_AT: AtomicU64 = AtomicU64::new(0);
+static mut TABLE: [usize; 64] = [0; 64];
+unsafe fn enter(p: usize) { for s in TABLE.iter_mut() { if *s == 0 { *s = p; return; } } }
+unsafe fn leave(p: usize) -> bool { for s in TABLE.iter_mut() { if *s == p { *s = 0; return true; } } false }
+unsafe fn live() -> usize { TABLE.iter().filter(|s| **s != 0).count() }
+struct A;
+unsafe impl GlobalAlloc for A {
+  unsafe fn alloc(&self, l: Layout) -> *mut u8 {
+    if ON.load(SeqCst) {
+      let n = COUNT.fetch_add(1, SeqCst) + 1;
+      if n == FAIL_AT.load(SeqCst) { ON.store(false, SeqCst); TRACK.store(false, SeqCst); return std::ptr::null_mut(); }
+    }
+    let p = System.alloc(l);
+    if TRACK.load(SeqCst) && !p.is_null() { enter(p as usize); }
+    p
+  }
+  unsafe fn dealloc(&self, p: *mut u8, l: Layout) {
+    leave(p as usize);
+    System.dealloc(p, l)
+  }
+  unsafe fn realloc(&self, p: *mut u8, l: Layout, n: usize) -> *mut u8 {
+    if ON.load(SeqCst) {
+      let k = COUNT.fetch_add(1, SeqCst) + 1;
+      if k == FAIL_AT.load(SeqCst) { ON.store(false, SeqCst); TRACK.store(false, SeqCst); return std::ptr::null_mut(); }
+    }
+    let q = System.realloc(p, l, n);
+    if !q.is_null() && leave(p as usize) { enter(q as usize); }
+    q
+  }
+}
+#[global_allocator] static G: A = A;
+static DROPS: AtomicU64 = AtomicU64::new(0);
+struct E(u64, [u64; 2]);
+impl Drop for E { fn drop(&mut self) { DROPS.fetch_add(1, SeqCst); } }
+impl Clone for E { fn clone(&self) -> E { E(self.0, self.1) } }
+fn filled(n: u64) -> MiniVec<E> { let mut v = MiniVec::new(); for i in 0..n { v.push(E(i, [i, i])); } v.shrink_to_fit(); v }
+type Scen = (&'static str, fn(&mut MiniVec<E>, &mut MiniVec<E>));
+fn scenarios() -> Vec<Scen> {
+  vec![
+    ("push when full", |v, _| v.push(E(9, [9, 9]))),
+    ("insert when full", |v, _| v.insert(1, E(9, [9, 9]))),
+    ("reserve", |v, _| v.reserve(40)),
+    ("reserve_exact", |v, _| v.reserve_exact(40)),
+    ("shrink_to_fit after pop", |v, _| { v.pop(); v.shrink_to_fit(); }),
+    ("split_off(0)", |v, o| { *o = v.split_off(0); }),
+    ("split_off(2)", |v, o| { *o = v.split_off(2); }),
+    ("drain_vec + push", |v, o| { *o = v.drain_vec(); v.push(E(1, [1, 1])); }),
+    ("clone", |v, o| { *o = v.clone(); }),
+    ("clone_from", |v, o| { o.clone_from(v); }),
+    ("append", |v, o| { let mut t = filled(5); v.append(&mut t); *o = t; }),
+    ("extend", |v, _| v.extend((0..9).map(|i| E(i, [i, i])))),
+    ("extend_from_slice", |v, _| { let t = filled(6); v.extend_from_slice(&t); }),
+    ("resize", |v, _| v.resize(20, E(7, [7, 7]))),
+    ("splice longer", |v, _| { let _ = v.splice(1..2, (0..7).map(|i| E(i, [i, i]))); }),
+    ("into_iter clone", |v, o| { let it = std::mem::replace(v, MiniVec::new()).into_iter(); let c = it.clone(); *o = c.collect(); drop(it); }),
+    ("collect", |_, o| { *o = (0..9).map(|i| E(i, [i, i])).collect(); }),
+    ("with_capacity", |_, o| { *o = MiniVec::with_capacity(13); }),
+    ("macro repeat", |_, o| { *o = mini_vec![E(1, [1, 1]); 6]; }),
+  ]
+}
+fn main() {
+  std::alloc::set_alloc_error_hook(|l| panic!("refused {} bytes", l.size()));
+  std::panic::set_hook(Box::new(|_| {}));
+  let mut total = 0u64; let mut bad = 0u64;
+  for (name, f) in scenarios() {
+    for k in 1..=4u64 {
+      unsafe { TABLE = [0; 64]; }
+      COUNT.store(0, SeqCst); FAIL_AT.store(0, SeqCst);
+      TRACK.store(true, SeqCst);
+      let mut v = filled(4);                       // its block is in the table
+      let mut o: MiniVec<E> = MiniVec::new();
+      COUNT.store(0, SeqCst); FAIL_AT.store(k, SeqCst); ON.store(true, SeqCst);
+      let r = std::panic::catch_unwind(std::panic::AssertUnwindSafe(|| f(&mut v, &mut o)));
+      let refused = !ON.swap(false, SeqCst);
+      TRACK.store(false, SeqCst);
+      drop(v); drop(o);
+      total += 1;
+      // every block in the table (the one owned before the operation and those obtained by it) must have been handed back
+      let left = unsafe { live() };
+      if refused && left != 0 {
+        bad += 1;
+        println!("MISMATCH {} with request no. {} refused (the hook panics, the stack unwinds, every handle is dropped): {} block(s) were never handed back to the allocator: nobody owned them while the operation diverged",
+                 name, k, left);
+      }
+      let _ = r;
+    }
+  }
+  println!("OOMUNWIND {} {}", total, bad);
+  std::process::exit(if bad == 0 { 0 } else { 1 });
+}
+"""
+
+def oom_unwind(tier, seed):
+    """C18: ownership of the old block at the moment of divergence, made observable by an allocation-error hook that panics"""
+    d = workdir("oom")
+    path = d + "/oom.rs"
+    open(path, "w").write(OOM_SRC)
+    env = dict(os.environ, RUSTC_BOOTSTRAP="1")
+    p0 = subprocess.run(["rustc", "--edition", "2021", "--extern", "minivec=" + rlib(), "-L", "dependency=" + DEPS, "-A", "warnings", "-o", d + "/oombin", path],
+                        capture_output=True, text=True, env=env)
+    viol = []
+    n = 0
+    if p0.returncode != 0:
+        # the unstable hook is not available with this toolchain: the battery cannot run (recorded, not a violation)
+        return [], {"evaluations": 0, "distinct_nontrivial": 0, "traces_validated_against_impl": 0, "oom_unwind": "not run: " + p0.stderr[-300:]}
+    p = subprocess.run([d + "/oombin"], capture_output=True, text=True, errors="replace")
+    tot = [l for l in p.stdout.split("\n") if l.startswith("OOMUNWIND ")]
+    if tot:
+        n = int(tot[-1].split()[1])
+    for l in [l for l in p.stdout.split("\n") if l.startswith("MISMATCH ")][:4]:
+        viol.append({"signature": "oom-unwind-" + l[9:].split(" with request")[0].replace(" ", "_"), "concrete": True,
+                     "payload": {"what": "a block the vector owned when the allocator refused a request has no owner while the operation diverges", "scenario": l[9:],
+                                 "replay": "RUSTC_BOOTSTRAP=1 rustc vlib/special.py:OOM_SRC against the crate, run it"}})
+    if not tot or p.returncode not in (0, 1):
+        viol.append({"signature": "oom-unwind-crash", "concrete": True, "payload": {"what": "the battery did not finish", "rc": p.returncode, "stdout": p.stdout[-500:], "stderr": p.stderr[-500:]}})
+    return viol, {"evaluations": n, "distinct_nontrivial": n, "traces_validated_against_impl": n if not viol else 0, "oom_unwind_scenarios": n}
